@@ -76,7 +76,8 @@ struct World {
                 sim::NoSched ns;
                 if (on_stuck) on_stuck(*this);
                 std::string s;
-                for (auto& t : threads) if (!t.done) { char b[96]; snprintf(b, sizeof b, " th%d(vcpu%d):%s@op%d", t.id, t.vcpu, t.where, t.op); s += b; }
+                for (auto& t : threads) if (!t.done) { char b[128]; snprintf(b, sizeof b, " th%d(vcpu%d):%s@op%d[st%d]", t.id, t.vcpu, t.where, t.op, t.th ? (int)photon::thread_stat(t.th) : -1); s += b; }
+                { char b[96]; snprintf(b, sizeof b, " | detected on vcpu%d photon::now=%llu sim_us=%llu", v, (unsigned long long)photon::now, (unsigned long long)(sim::now_ns() / 1000)); s += b; }
                 sim::finish("viol", "stuck", "threads still blocked at sim deadline:%s", s.c_str());
             }
             photon::thread_usleep(1500);
